@@ -15,7 +15,7 @@ Definition rawev_of_jv (v : jv) : rawev :=
         (jfield "tags" v) (as_str (jfield "content" v)) (jfield "sig" v).
 Definition wevent_of_jv (v : jv) : wevent :=
   mkW (as_str (jfield "id" v)) (as_str (jfield "pubkey" v)) (as_int (jfield "created_at" v)) (as_int (jfield "kind" v))
-      (map (fun t => map as_str (as_arr t)) (as_arr (jfield "tags" v))) (as_str (jfield "content" v))
+      (map as_arr (as_arr (jfield "tags" v))) (as_str (jfield "content" v))
       (as_str (jfield "sig" v)).
 Definition jv_of_wevent (w : wevent) : jv :=
   jobj [("id", JStr (w_id w)); ("pubkey", JStr (w_pubkey w)); ("created_at", JInt (w_created_at w));
